@@ -1,5 +1,5 @@
 (** C05 — PER and UPER encodings are bit-exact X.691.  Statements only. *)
-From Asn1V Require Import Base.Prelude Base.Bits Base.BitsProofs Syntax.Asn1 Per.UperImpl Per.UperPrim.
+From Asn1V Require Import Base.Prelude Base.Bits Base.BitsProofs Syntax.Asn1 Per.UperImpl Per.UperPrim Per.UperPB Per.UperRT.
 
 (** X.691 10.5 / 10.3: a value in a range of width 2^n occupies exactly n bits,
     most significant first, and reads back as itself with the rest of the
@@ -18,6 +18,42 @@ Theorem C05_length_determinant :
   forall n rest, 0 <= n < 16384 -> read_len (enc_len_short n ++ rest) = Ok (n, rest).
 Proof. exact read_len_short. Qed.
 Print Assumptions C05_length_determinant.
+
+(** X.691 10.5: the field of a constrained whole number is the SMALLEST
+    number of bits that holds the range — the width the model (and uper.py's
+    integer_as_number_of_bits) computes is minimal. *)
+Theorem C05_constrained_width_minimal :
+  forall lo hi, lo <= hi ->
+    let n := bit_length (hi - lo) in
+    hi - lo < 2 ^ n /\ forall m, 0 <= m < n -> 2 ^ m <= hi - lo.
+Proof. exact constrained_width_minimal. Qed.
+Print Assumptions C05_constrained_width_minimal.
+
+(** X.691 10.8 / 12.2.6: an unconstrained whole number is written as a
+    2's-complement integer in the MINIMUM number of octets: the octet count of
+    append_unconstrained_whole_number holds the value and one octet less would not. *)
+Theorem C05_unconstrained_octets_minimal :
+  forall v, let n := unc_nbytes v in
+    (- 2 ^ (8 * n - 1) <= v < 2 ^ (8 * n - 1)) /\
+    (1 < n -> ~ (- 2 ^ (8 * (n - 1) - 1) <= v < 2 ^ (8 * (n - 1) - 1))).
+Proof. exact unconstrained_octets_minimal. Qed.
+Print Assumptions C05_unconstrained_octets_minimal.
+
+(** and that integer reads back exactly (any value, any continuation) *)
+Theorem C05_unconstrained_roundtrip :
+  forall v bs rest, enc_unconstrained v = Ok bs -> read_unconstrained (bs ++ rest) = Ok (v, rest).
+Proof. exact read_unconstrained_rt. Qed.
+Print Assumptions C05_unconstrained_roundtrip.
+
+(** Whole types: the bit string the UPER model emits is read back by the
+    model decoder to the same abstract value for every modelled type (the
+    model is compared bit for bit with uper.py on every run). *)
+Theorem C05_uper_bits_decodable :
+  forall numeric e fuel t v bs,
+    enc numeric e fuel t v = Ok bs ->
+    forall rest, dec numeric e fuel t (bs ++ rest) = Ok (norm numeric e fuel t v, rest).
+Proof. exact enc_dec_rt. Qed.
+Print Assumptions C05_uper_bits_decodable.
 
 Example C05_length_determinant_vectors :
   enc_len_short 5 = to_bits 8 5 /\ enc_len_short 300 = to_bits 8 129 ++ to_bits 8 44.
